@@ -34,6 +34,20 @@ class BroadcastTo(ArrayExpr):
     def chunks(self):
         return self._chunks
 
+    def _lower(self):
+        # ``_chunks`` was derived from the input's layout at construction and
+        # ``_layer`` pairs output blocks with input blocks by index.  A rewrite
+        # below (chunk unification, a native sliding-window layout, ...) can
+        # settle the input on a different layout; bring it back to the one this
+        # node was built against.
+        x = self.array
+        ndim_new = len(self._shape) - x.ndim
+        expected = tuple(
+            xc if xs == 1 else oc for xc, xs, oc in zip(x.chunks, x.shape, self._chunks[ndim_new:])
+        )
+        if x.chunks != expected and not any(np.isnan(c) for cs in expected for c in cs):
+            return BroadcastTo(x.rechunk(expected), self._shape, self._chunks, self.operand("_meta_override"))
+
     def _layer(self) -> dict:
         x = self.array
         shape = self._shape
